@@ -44,7 +44,7 @@ pub fn build_spec(property: &str, tier: &str, seed: u64) -> Option<Spec> {
             let phases: Vec<Box<dyn Phase>> = vec![
                 Box::new(c07::CharSweep::new(docs.clone(), if thorough { vec![0, 1, 2, 3, 4] } else { vec![0, 1, 4] })),
                 Box::new(c07::ByteSweep::new(docs.clone())),
-                Box::new(c07::Search { docs, runs: runs(8_000_000, 150_000_000, tier), max_items: 20_000 }),
+                Box::new(c07::Search { docs, runs: runs(8_000_000, 1_500_000_000, tier), max_items: 20_000 }),
             ];
             Some(Spec {
                 property: "C07", level: "fault_enumeration", phases,
@@ -64,7 +64,7 @@ pub fn build_spec(property: &str, tier: &str, seed: u64) -> Option<Spec> {
         "C03" => {
             let docs = Arc::new(c07::Docs::build(seed, 50, 60));
             let phases: Vec<Box<dyn Phase>> = vec![
-                Box::new(c03::C03Search { docs: docs.clone(), runs: runs(10_000_000, 200_000_000, tier), max_items: 20_000 }),
+                Box::new(c03::C03Search { docs: docs.clone(), runs: runs(10_000_000, 1_500_000_000, tier), max_items: 20_000 }),
                 Box::new(c03::C03CorpusBytes::new(docs)),
                 Box::new(c03::C03Deep { runs: if thorough { 3000 } else { 200 }, thorough }),
             ];
@@ -278,7 +278,7 @@ fn evidence_json(spec: &Spec, tier: &str, seed: u64, results: &mut [(usize, Phas
         phases.push(J::Obj(vec![
             ("name".into(), J::from(ph.name())), ("runs_planned".into(), J::UInt(ph.runs())), ("runs_done".into(), J::UInt(r.runs_done)),
             ("truncated".into(), J::Bool(r.runs_done < ph.runs())),
-            ("distinct_nontrivial".into(), J::UInt(dn)), ("wall_s".into(), J::Float(r.wall_s)),
+            ("distinct_nontrivial".into(), J::UInt(dn)), ("distinct_counting".into(), J::from(if ph.runs() > crate::kernel::runner::DIGEST_EXACT_LIMIT { "lower bound: distinct digests counted on the 1/16 sub-sample digest % 16 == 0 only" } else { "exact (sort + dedup of all 64-bit digests)" })), ("wall_s".into(), J::Float(r.wall_s)),
             ("runs_per_hour".into(), J::UInt(if r.wall_s > 0.0 { (r.runs_done as f64 / r.wall_s * 3600.0) as u64 } else { 0 })),
         ]));
         let st = std::mem::take(&mut r.stats);
